@@ -114,6 +114,74 @@ Theorem C19_legacy_wrong_passphrase_refuted :
 Proof. exact legacy_wrong_passphrase_witness. Qed.
 Print Assumptions C19_legacy_wrong_passphrase_refuted.
 
+(* ---- histories over one key file ------------------------------------------------------------------
+   [hop] = the operations of the package applied one after the other to ONE path (load, export, import over
+   what is there, create), each with ANY passphrase; [hrun] = result and file after each step.
+   [opens_exactly f P s]: f loads and exports with every passphrase of P, to the key s, and with no other
+   passphrase.  The ghost state [sealst] carries the file, P and the key; only a successful import and a
+   create on a free path change P (to "the passphrase that call was given") and the key. *)
+
+(* Loads and exports, however many and with whatever passphrases (right, wrong, empty, all-zero, long), leave
+   the file exactly as it is: so the passphrases that open it, and the key, are the same afterwards.  No
+   hypothesis on the cryptography. *)
+Theorem C19_readonly_history_full : forall (c : crypto) (ops : list hop) (f : file c),
+  Forall hop_reads ops ->
+  Forall (fun fr => fst fr = f) (hrun c f ops) /\ hfile c f ops = f.
+Proof. exact readonly_history_keeps_file. Qed.
+Print Assumptions C19_readonly_history_full.
+
+Theorem C19_readonly_history_same_answers_full : forall (c : crypto) (ops : list hop) (f : file c) (p : bytes),
+  Forall hop_reads ops ->
+  load c (hfile c f ops) p = load c f p /\ export c (hfile c f ops) p = export c f p.
+Proof. exact readonly_history_same_answers. Qed.
+Print Assumptions C19_readonly_history_same_answers_full.
+
+(* An operation that reports an error (import of bytes that are no key, create on a path that holds a file)
+   has not touched the file. *)
+Theorem C19_failed_step_keeps_file_full : forall (c : crypto) (f : file c) (op : hop) (e : err),
+  snd (hstep c f op) = RDone (Err e) -> fst (hstep c f op) = f.
+Proof. exact failed_step_keeps_file. Qed.
+Print Assumptions C19_failed_step_keeps_file_full.
+
+(* After EVERY step of ANY history the file opens with exactly the passphrase it was last sealed with, and
+   to the key last sealed in it.  (hop_wf: the salts the code draws are non-empty, its nonces have 12 bytes,
+   the key pair Create draws is a matching one.) *)
+Theorem C19_history_keeps_seal_full : forall (c : crypto), ideal c ->
+  forall (ops : list hop) (st : sealst c),
+  Forall hop_wf ops -> seal_ok c st -> Forall (seal_ok c) (seal_trace c st ops).
+Proof. exact history_keeps_seal. Qed.
+Print Assumptions C19_history_keeps_seal_full.
+
+(* where histories start: a created file opens with exactly its passphrase; a legacy salt-less file with
+   exactly the passphrases deriving its raw key (see C19_legacy_wrong_passphrase_refuted for what that set is) *)
+Theorem C19_history_starts_full : forall (c : crypto), ideal c ->
+  (forall seed pass salt nonce, length seed = 32 -> salt <> [] -> length nonce = 12 ->
+     opens_exactly c (snd (create c seed pass salt nonce)) (eq pass) (fst (create c seed pass salt nonce))) /\
+  (forall s rawkey nonce, wf_signer s -> length nonce = 12 ->
+     opens_exactly c (legacy_file c s rawkey nonce) (fun p => fallback_derive p = Ok rawkey) s).
+Proof. exact history_starts. Qed.
+Print Assumptions C19_history_starts_full.
+
+(* ---- signing sessions ---------------------------------------------------------------------------------
+   Whatever sequence of Sign calls is made on one signer — fresh slices, the same buffer again, the same
+   buffer rewritten in place, a prefix of it — every signature is the signature of the bytes the message held
+   at the time of the call and verifies, for those bytes, under the public key the signer reports. *)
+Theorem C19_sign_session_full : forall (c : crypto), ideal c ->
+  forall seed ops, length seed = 32 ->
+  let s := new_signer c seed in
+  session_sigs c s ops = map (signer_sign c s) (session_msgs [] ops) /\
+  Forall2 (fun m sig => verify_under c (signer_public s) m sig = true) (session_msgs [] ops) (session_sigs c s ops).
+Proof. exact sign_session_verifies. Qed.
+Print Assumptions C19_sign_session_full.
+
+Theorem C19_loaded_sign_session_full : forall (c : crypto), ideal c ->
+  forall seed pass salt nonce s ops,
+  length seed = 32 -> salt <> [] -> length nonce = 12 ->
+  load c (snd (create c seed pass salt nonce)) pass = Ok s ->
+  Forall2 (fun m sig => verify_under c (signer_public s) m sig = true) (session_msgs [] ops) (session_sigs c s ops).
+Proof. exact loaded_sign_session_verifies. Qed.
+Print Assumptions C19_loaded_sign_session_full.
+
 (* ---- non-vacuity --------------------------------------------------------------------------------- *)
 (* the ideal hypotheses are satisfiable: the symbolic instance used by the correspondence check meets them *)
 Example ex_ideal_inhabited : ideal sym.
@@ -176,3 +244,30 @@ Example ex_legacy :
   load sym (legacy_file sym ex_signer ex_legacy_key ex_nonce) [] = Err ELegacyEmpty /\
   fallback_derive [] = Panic.
 Proof. vm_compute. repeat split; try reflexivity. discriminate. Qed.
+
+(* a history over one path: a legacy file is loaded (right passphrase), loaded with the all-zero passphrase of
+   the same length, exported, re-imported under a new passphrase, loaded with the old and the new one; a
+   create on the occupied path and an import of 63 bytes fail and change nothing *)
+Definition ex_zero5 : bytes := repeat 0%N 5.
+Definition ex_hist : list hop :=
+  [HLoad ex_legacy_pass; HLoad ex_zero5; HExport ex_legacy_pass; HCreate ex_signer [7%N] ex_salt ex_nonce;
+   HImport (repeat 1%N 63) [7%N] ex_salt ex_nonce;
+   HImport (s_priv ex_signer) [7%N] ex_salt ex_nonce; HLoad ex_legacy_pass; HLoad [7%N]].
+Definition ex_legacy_f : file sym := legacy_file sym ex_signer ex_legacy_key ex_nonce.
+Example ex_history :
+  Forall hop_wf ex_hist /\
+  map snd (hrun sym ex_legacy_f ex_hist) =
+    [RSigner (Ok ex_signer); RSigner (Err EDecrypt); RBytes (Ok (s_priv ex_signer)); RDone (Err EExists);
+     RDone (Err EPriv); RDone (Ok tt); RSigner (Err EDecrypt); RSigner (Ok ex_signer)] /\
+  map fst (firstn 5 (hrun sym ex_legacy_f ex_hist)) = repeat ex_legacy_f 5 /\
+  hfile sym ex_legacy_f ex_hist = ex_file [7%N].
+Proof.
+  split; [|vm_compute; repeat split; reflexivity].
+  repeat constructor; try discriminate. all: try reflexivity.
+Qed.
+
+(* a signing session on one buffer: sign, rewrite two bytes in place, sign again, sign a prefix, sign again *)
+Definition ex_session : list sop := [SNew [1; 2; 3; 4]%N; SPatch 1 [9; 9]%N; SResign; SPrefix 2; SFresh [5%N]; SPatch 3 [7; 7; 7]%N].
+Example ex_session_msgs :
+  session_msgs [] ex_session = [[1; 2; 3; 4]; [1; 9; 9; 4]; [1; 9; 9; 4]; [1; 9]; [5]; [1; 9; 9; 7]]%N.
+Proof. vm_compute. reflexivity. Qed.
